@@ -864,9 +864,12 @@ def _run(tier, sp, v, r, quick, mc_future):
     dc = tamper_stats.get("rom/tamper/dontcare_filler")
     if dc and dc["rejected"]:
         raise Machinery("a flip in the declared don't-care filler of an unsigned SB 2.0 file was rejected: the don't-care declaration is stale")
-    v.extra["trusted_base"] = ("executor harness/c04_rom.py: struct, hashlib (SHA-256), hmac, bit-serial/table CRC-32/MPEG-2 (self-tested), and `cryptography` "
-                               "primitives called directly: AES-ECB block function (CTR is built in the executor), RFC 3394 unwrap, X.509 DER parsing, RSA PKCS#1 v1.5 "
-                               "verification; golden files of the reference tool in anchors/C04 anchor the automaton; nothing from spsdk.crypto / spsdk.sbfile")
+    v.extra["trusted_base"] = [
+        "harness/c04_rom.py (independent executor): struct, hashlib SHA-256, hmac, bit-serial / table CRC-32/MPEG-2 (self-tested against published check values)",
+        "`cryptography` primitives called directly: AES-ECB block function (CTR is built in the executor), RFC 3394 unwrap, X.509 DER parsing, RSA PKCS#1 v1.5 verification",
+        "anchors/C04: 14 golden files of the reference tool (elftosb) that the automaton must accept at every start",
+        "nothing from spsdk.crypto / spsdk.sbfile on the deciding side; TLC decides every trace",
+    ]
     v.extra["checker_cmd"] = "tlc2.TLC -config Sb2RomMC*.cfg Sb2RomMC.tla (MC), -config Sb2RomGen*.cfg (GEN), -config Sb2RomTrace.cfg Sb2RomTrace.tla (TV)"
     v.extra["tamper"] = tamper_stats
     v.extra["tamper_rejected"] = sum(s["rejected"] for k, s in tamper_stats.items() if k.startswith("rom/"))
